@@ -62,7 +62,7 @@ def build(cash, pos, r, m):
     qty = (left - cash) / 100.0
     if qty:
         b.transact(Trade(T0, S, qty, 100.0, 100.0, b.fees))
-    b.exchange.process_EventNBBO(EventNBBO(T0, RATE2, R2, R2))
+    b.exchange.process_EventNBBO(EventNBBO(T0, RATE2, R2 - 0.00390625, R2 + 0.00390625))
     b.accrued_interest(T0, True)   # histories start with an initial accrual, as Broker.rebalance does
     b._mcx_rm = (r, m, 1)          # the rate and markup in force, carried with the snapshot
     return b
@@ -96,7 +96,8 @@ def step(b, op, r, m):
         # published at the instant of the last accrual: the whole following period is at the new rate
         if which == 2 or r == RQ:
             return ["__skip__"]
-        b.exchange.process_EventNBBO(EventNBBO(last, RATE, RQ, RQ))
+        # quoted with a spread around RQ: the reference rate is the mid of the rate book
+        b.exchange.process_EventNBBO(EventNBBO(last, RATE, RQ - 0.0078125, RQ + 0.0078125))
         b._mcx_rm = (RQ, m, 1)
         return msgs
     if op[0] == "fees":
